@@ -565,6 +565,27 @@ structure Decoded where
   signature : Bytes
 deriving Repr
 
+/-- the end of `TbsCert::from_constructed`: the checks after the extension loop and the value returned -/
+def finishTbs (serial : Bytes) (innerParam outerParam : Bool) (issuer subject : Bytes)
+    (notBefore notAfter : X509.Civil) (keyAlg : KeyAlg) (keyUnused : Nat) (keyBits raw signature : Bytes)
+    (e : Exts) : Option Decoded :=
+  if e.ip.isNone ∧ e.asn.isNone then none
+  else if e.ip.isSome ∧ e.ipTrim ≠ e.overclaim then none
+  else if e.asn.isSome ∧ e.asTrim ≠ e.overclaim then none
+  else match e.ski, e.keyUsage, e.overclaim with
+    | some ski, some ku, some trim =>
+      some {
+        serial, innerParam, outerParam, issuer, subject,
+        validity := ⟨civilToEpoch notBefore, civilToEpoch notAfter⟩, notBefore, notAfter,
+        keyAlg, keyUnused, keyBits,
+        basicCa := e.basicCa, ski, aki := e.aki, keyUsage := ku, eku := e.eku,
+        ekuContent := e.ekuContent,
+        crlUri := e.crlUri, caIssuer := e.caIssuer, sia := e.sia.getD {}, trim,
+        v4 := (e.ip.getD (none, none)).1.getD .missing, v6 := (e.ip.getD (none, none)).2.getD .missing,
+        asn := e.asn.getD .missing,
+        tbs := raw, signature }
+    | _, _, _ => none
+
 /-- `TbsCert::from_constructed` on the captured TBS octets; the two outer fields are filled in by
 `decodeCert` -/
 def decodeTbs (raw : Bytes) (outerParam : Bool) (signature : Bytes) : Option Decoded :=
@@ -594,7 +615,6 @@ def decodeTbs (raw : Bytes) (outerParam : Bool) (signature : Bytes) : Option Dec
                 match takeValidityCivil r3 with
                 | none => none
                 | some (notBefore, notAfter, r4) =>
-                  let validity : X509.Validity := ⟨civilToEpoch notBefore, civilToEpoch notAfter⟩
                   match takeName r4 with
                   | none => none
                   | some (subject, r5) =>
@@ -612,21 +632,8 @@ def decodeTbs (raw : Bytes) (outerParam : Bool) (signature : Bytes) : Option Dec
                           match foldCons tagSeq extension xs.length xs {} with
                           | none => none
                           | some e =>
-                            if e.ip.isNone ∧ e.asn.isNone then none
-                            else if e.ip.isSome ∧ e.ipTrim ≠ e.overclaim then none
-                            else if e.asn.isSome ∧ e.asTrim ≠ e.overclaim then none
-                            else match e.ski, e.keyUsage, e.overclaim with
-                              | some ski, some ku, some trim =>
-                                let (v4, v6) := e.ip.getD (none, none)
-                                some {
-                                  serial, innerParam, outerParam, issuer, subject, validity, notBefore, notAfter,
-                                  keyAlg, keyUnused, keyBits,
-                                  basicCa := e.basicCa, ski, aki := e.aki, keyUsage := ku, eku := e.eku,
-                                  ekuContent := e.ekuContent,
-                                  crlUri := e.crlUri, caIssuer := e.caIssuer, sia := e.sia.getD {}, trim,
-                                  v4 := v4.getD .missing, v6 := v6.getD .missing, asn := e.asn.getD .missing,
-                                  tbs := raw, signature }
-                              | _, _, _ => none
+                            finishTbs serial innerParam outerParam issuer subject notBefore notAfter keyAlg keyUnused
+                              keyBits raw signature e
 
 /-- `Cert::take_from`: one certificate and what follows it -/
 def takeCert (b : Bytes) : Option (Decoded × Bytes) :=
